@@ -18,11 +18,36 @@ Theorem C17_membership : forall h dom x id t, t1 x t = true -> mentions t = true
 Proof. intros. apply concat_membership; assumption. Qed.
 Print Assumptions C17_membership.
 
+(* the same for ANY concatenated expression u (an attribute chain, flatten(...) of one, ...): the single value lists, in order,
+   the elements of every row u has ([concat_value]: a flat_map over the rows of u) ... *)
+Theorem C17_single_any : forall h dom cid u, run_query h dom [TConcat cid u] None = [[concat_value h dom u]].
+Proof. exact concat_any_single. Qed.
+Print Assumptions C17_single_any.
+
+Theorem C17_membership_any : forall h dom cid u y, Nat.eqb y cid = false -> forall o m,
+  run_query h dom [TVar y] (Some (CCmp o (TConcat cid u) (TMap m (TVar y))))
+  = map (fun w => [w]) (filter (fun w => apply_op o (concat_value h dom u) (apply_map h m w)) (dom y)).
+Proof. exact concat_any_membership. Qed.
+Print Assumptions C17_membership_any.
+
+(* ... and for u = flatten(t) these are the elements of the elements of t, parent by parent (a collection of collections is
+   concatenated one level deeper than concatenate(t) would) *)
+Theorem C17_concat_of_flatten : forall h dom x fid t, t1 x t = true -> mentions t = true ->
+  concat_value h dom (TFlat fid t)
+  = VTup (flat_map (fun v => flat_map atoms_of (elements (tval h t (ev x v)))) (dom x)).
+Proof. exact concat_value_flat. Qed.
+Print Assumptions C17_concat_of_flatten.
+
 Example C17_nonvacuous :
   let h := [[VTup [AInt 1; AInt 2]; VInt 2]; [VTup []; VInt 5]; [VTup [AInt 2; AInt 0]; VInt 0]] in
   let dom := fun k : key => match k with 1 => [VObj 2; VObj 1; VObj 0] | 2 => [VObj 0; VObj 1; VObj 2] | _ => [] end in
   let t := TMap (MField 0) (TVar 1) in
   run_query h dom [TConcat 6 t] None = [[VTup [AInt 2; AInt 0; AInt 1; AInt 2]]] /\
   run_query h dom [TVar 2] (Some (CCmp NotContains (TConcat 6 t) (TMap (MField 1) (TVar 2)))) = [[VObj 1]] /\
-  run_query h (fun _ => []) [TConcat 6 t] None = [[VTup []]].
+  run_query h (fun _ => []) [TConcat 6 t] None = [[VTup []]] /\
+  (* a collection of collections (groups (1,2) and (), the scalar 7): concatenate lists the groups, concatenate(flatten) their elements *)
+  let h2 := [[VTup [ATup [1; 2]%Z; ATup []; AInt 7]]; [VTup [ATup [2]%Z]]] in
+  let dom2 := fun k : key => match k with 1 => [VObj 0; VObj 1] | _ => [] end in
+  run_query h2 dom2 [TConcat 6 t] None = [[VTup [ATup [1; 2]%Z; ATup []; AInt 7; ATup [2]%Z]]] /\
+  run_query h2 dom2 [TConcat 6 (TFlat 5 t)] None = [[VTup [AInt 1; AInt 2; AInt 7; AInt 2]]].
 Proof. vm_compute. repeat split. Qed.
